@@ -231,6 +231,10 @@ def c17_extra(pid, tier, seed):
             continue
         withidx = I if cnt % 2 == 0 else 'none'
         line = 'migrate %d %d %d %d %d %s %s' % (mv, iv2, t, k, base, L, withidx)
+        TLh = to.split()[0]
+        if v != mv and TLh != '-' and rng.random() < 0.4:
+            # an earlier migration died half-way: its temporary file holds a prefix of the migrated log
+            line += ' stale:' + TLh[:2 * max(1, rng.randrange(0, len(TLh) // 2 + 1))]
         lines.append(line)
         want[line] = (v, mv, to.split(), L, withidx)
     lines = list(dict.fromkeys(lines))
